@@ -49,6 +49,7 @@ case = {
   'hactions': [action, ...],     action of the k-th invocation of the custom error handler (cyclic)
 }
 action in 'ret' | 'complete' | 'http_error' | 'http_status' | 'app_handled' | 'app_unhandled'
+       | 'reroute:<kind>' (request methods only, GET kinds only: assigns req.path = the path of that kind)
 handler action in 'ret' | 'http_error' | 'http_status'
 
 Trace events (tuples), identical in shape to what the generated application objects record:
@@ -106,6 +107,9 @@ def kind_info(kind):
     if kind.startswith('ms:'):
         return (True, 'res', (), responder_name(kind[3:], 'items'))
     return _KINDS[kind]
+
+
+GET_KINDS = ('route', 'field', 'suffix', 'falsy', 'sink', 'unrouted')       # same method, different paths
 
 
 def kind_request(kind):
@@ -201,6 +205,12 @@ class _Interp:
             return 'ret'
         if a == 'complete':
             return 'complete'
+        if a.startswith('reroute:'):
+            # middleware.rst: "a request can be effectively re-routed by setting [req.path] to a new value from
+            # within process_request()" - routing happens after the request methods and uses what they left
+            self.kind = a.split(':', 1)[1]
+            self.classes.add('reroute.%s->%s' % (self.case['kind'], self.kind))
+            return 'ret'
         self.raised = True
         self.handle(site, a)
         return 'raise'
@@ -241,7 +251,7 @@ class _Interp:
         stack = case['stack']
         comps = effective(script, stack)
         independent = script['independent']
-        matched, rtag, fields, responder = kind_info(case['kind'])
+        self.kind = case['kind']
         resource = None
         queued = []          # dependent mode: response methods whose own and earlier request methods did not raise
 
@@ -258,7 +268,9 @@ class _Interp:
                 queued.insert(0, (i, v))
         req_phase_raised = self.raised
 
-        # 2. routing, only if nothing completed or raised
+        # 2. routing, only if nothing completed or raised; by the path the request methods left in req.path
+        matched, rtag, fields, responder = kind_info(self.kind)
+        kind = self.kind
         routed = not self.complete and not self.raised
         if routed and matched:
             resource = rtag
@@ -288,11 +300,11 @@ class _Interp:
                         self.classes.add('form.%s.classhook' % form)
                     if responder in script.get('inherit', ()) and script.get('hooks_class'):
                         self.classes.add('form.%s.classhook.inherited' % form)
-                if case['kind'].startswith('m'):
-                    mc = method_class(case['kind'].split(':')[1])
+                if kind.startswith('m'):
+                    mc = method_class(kind.split(':')[1])
                     self.classes.add('method.' + mc)
                     if script.get('hooks_class'):
-                        self.classes.add('classhook.' + mc + ('.suffixed' if case['kind'].startswith('ms:') else ''))
+                        self.classes.add('classhook.' + mc + ('.suffixed' if kind.startswith('ms:') else ''))
                 if responder in script.get('inherit', ()):
                     for kind, _ in script.get('hooks_class', ()):
                         self.classes.add('inherit.class_' + kind)
